@@ -253,6 +253,12 @@ class Graph:
         to, via = e
         t = f"n{to}"
         if via == "none":
+            if to % 2 == 0:
+                # through an intermediate zero-sized section whose only content is the R_X86_64_NONE relocation
+                # (keep-alive dependency that emits no bytes): the GC edge passes through an empty section
+                h = f"hop{len(self._hops)}_{self._tu}"
+                self._hops.append(f'    .section .text.{h},"ax",@progbits\n{h}:\n    .reloc ., R_X86_64_NONE, {t}\n')
+                return f"    .reloc ., R_X86_64_NONE, {h}\n"
             return f"    .reloc ., R_X86_64_NONE, {t}\n"
         if via == "call":
             return f"    call {t}\n"
@@ -277,6 +283,7 @@ class Graph:
         raise ValueError(via)
 
     def emit_tu(self, tu):
+        self._hops, self._tu = [], tu
         s = ["    .hidden visited\n    .hidden walk\n    .hidden walkset\n"]
         for nd in self.nodes:
             if nd["tu"] != tu:
@@ -329,6 +336,7 @@ class Graph:
             for e in self.main["edges"]:
                 s.append(self.emit_edge(e))
             s.append("    xor %eax, %eax\n    movb visited+255(%rip), %al\n    add $7, %eax\n    pop %rbx\n    ret\n")
+        s += self._hops
         s.append(progen.NOTE_GNU_STACK)
         return "".join(s)
 
